@@ -369,21 +369,27 @@ def range_sweep():
               (0, 100, -2**62), (I64MAX - 7, I64MAX, 3), (I64MAX - 7, I64MAX, -2), (I64MAX - 1, I64MAX, 1), (I64MIN, I64MIN + 10, -4),
               (I64MIN, I64MIN + 10, 4), (I64MIN, I64MIN + 1, 1), (0, I64MAX, 1), (0, I64MAX, -1), (I64MIN, -1, 1), (-2**62, 2**62 - 1, 1),
               (-5, I64MAX - 7, I64MAX), (I64MIN, 0, I64MIN + 1), (0, I64MAX, 2**32), (I64MIN, I64MAX, 0), (I64MAX, I64MIN, 1), (7, 7, -1)]
-    for (a, b, c) in ranges:
-        assert range_len_ok(a, b, c)
-        lines = [f'new 0 rng {a} {b} {c}', 'len 0']
-        for ix in range_indices(a, b, c):
-            lines += [f'get 0 i{ix}', 'len 0', 'get 0 i0']
-        lines += ['get 0 sx', 'get 0 p1', 'get 0 N', 'set 0 i0 i0', 'rem 0 i0', 'len 0']
-        out.append(Case(f'sweep_rng_{a}_{b}_{c}', lines))
-    for n in (0, 1, 4):
-        for (a, b, c) in [(0, 4, 1), (0, 4, 0), (1, 9, 2), (0, 4, -1), (-3, -1, 1), (0, 9, 1000000), (0, 9, -1000000), (2, 2, 0)]:
+    # several objects per op file (one process pair per file): 9 ranges / 6 slices each
+    for g0 in range(0, len(ranges), 9):
+        lines = []
+        for j, (a, b, c) in enumerate(ranges[g0:g0 + 9]):
+            assert range_len_ok(a, b, c)
+            lines += [f'new {j} rng {a} {b} {c}', f'len {j}']
+            for ix in range_indices(a, b, c):
+                lines += [f'get {j} i{ix}', f'len {j}', f'get {j} i0']
+            lines += [f'get {j} sx', f'get {j} p1', f'get {j} N', f'set {j} i0 i0', f'rem {j} i0', f'len {j}']
+        out.append(Case(f'sweep_rng_{g0 // 9}', lines))
+    slices = [(n, a, b, c) for n in (0, 1, 4) for (a, b, c) in [(0, 4, 1), (0, 4, 0), (1, 9, 2), (0, 4, -1), (-3, -1, 1), (0, 9, 1000000), (0, 9, -1000000), (2, 2, 0)]]
+    for g0 in range(0, len(slices), 6):
+        lines = []
+        for j, (n, a, b, c) in enumerate(slices[g0:g0 + 6]):
+            A, S = 2 * j, 2 * j + 1
             vals = ' '.join(f'i{10 + k}' for k in range(n))
-            lines = [f'new 0 arr int {vals}'.rstrip(), f'new 1 slc 0 {a} {b} {c}', 'len 1']
+            lines += [f'new {A} arr int {vals}'.rstrip(), f'new {S} slc {A} {a} {b} {c}', f'len {S}']
             q = I64MAX // abs(c) if c else 0
             for ix in list(range(-n - 2, n + 3)) + [I64MAX, I64MIN, I64MAX - 1, I64MIN + 1, 2**62 + 1, q, q + 1, -q - 1]:
-                lines += [f'get 1 i{ix}', 'len 1', 'len 0']
-            out.append(Case(f'sweep_slc_{n}_{a}_{b}_{c}', lines))
+                lines += [f'get {S} i{ix}', f'len {S}', f'len {A}']
+        out.append(Case(f'sweep_slc_{g0 // 6}', lines))
     for alloc in ('heap', 'stack', 'static'):
         lines = [f'new 0 str {alloc} sabcab']
         for a in ('i0', 'i5', f'i{I64MAX}', f'i{I64MIN}', 'p0', 'p1', 'N', 'sq', 'sca', 's', 'i3', 'sab', 'p2', 'sab', 'sab'):
